@@ -8,7 +8,7 @@ BASE_OFF = "cd /repo && GOFLAGS=-mod=mod GOPROXY=off GOSUMDB=off GOTOOLCHAIN=loc
 # id -> (engine, technique, level text, level note, design ref)
 CHECKS = {
  "C01": ("E1-enum", "bounded exhaustive enumeration of (configuration x type-in-position x boundary value) on the real code against an independent reference model",
-   "Every tuple of the bounded universe (4 configurations, ~4 000 run-time built types in 6 positions, boundary values with <=2 non-default fields per struct level) is executed on the real Marshal/Unmarshal, each on a fresh Plenc instance; the decoded value must equal ref.Expect. Exhaustive inside the stated bounds, nothing sampled.",
+   "Every tuple of the bounded universe (4 configurations, ~4 000 run-time built types incl. named twins of every basic kind in 6 positions, boundary values with <=2 non-default fields per struct level, the zero map key paired with every value, slice lengths 0-3, 9, 17, 33 and in thorough 127-129) is executed on the real Marshal/Unmarshal, each on a fresh Plenc instance; the decoded value must equal ref.Expect. Exhaustive inside the stated bounds, nothing sampled.",
    "Trusted: the reference model (ref.Expect/ref.Accept, written from README + Appendix A of DESIGN.md), reflect, the Go runtime. Outside the bound: deeper types, more simultaneous deviations (DESIGN §10).", "§7 C01"),
  "C02": ("E1-enum", "bounded exhaustive enumeration; real Marshal bytes matched against an independent reference encoding tree; reference bytes re-ordered exhaustively and decoded by the real Unmarshal",
    "Same universe as C01. Encode side: byte-for-byte agreement (map entries in any order) with a reference encoder written from the documentation and bound to the 19 golden files on every run. Decode side: every permutation of the outermost struct's fields (<=4 fields) and a fully reversed rendering must decode to the same value as the declared order.",
@@ -22,14 +22,14 @@ CHECKS = {
  "C15": ("E2-bfs+E1-enum", "exhaustive enumeration of all well-nested call trees up to a call bound on the real JSONOutput, exhaustive 1- and 2-byte strings, all (prefix, Reset, document) histories, and an explicit-state BFS de-duplicated on the object's private state",
    "Every call tree of <=15 (thorough 18) Outputter calls, every scalar/key alphabet substitution into trees of <=5 calls, all 256 one-byte and 65 536 two-byte strings as value and field name, boundary numbers, every (prefix of A, Reset, B) history for A,B<=5 calls, and a BFS over call histories keyed on the real private state (stack, inField, depth, last two output bytes) to nesting depth 3 (thorough 5) with the frontier exhausted; each output is parsed by encoding/json's tokenizer and compared with the call tree.",
    "Trusted: encoding/json as the JSON oracle. Nesting deeper than the bound and alphabets beyond those listed are outside the bound.", "§7 C15"),
- "C07": ("E3-sched(+E5 race)", "stateless model checking of the real code: controlled cooperative scheduler owning every sync/atomic operation, depth-first enumeration of interleavings with iterative preemption bounding, sequential-specification oracle",
-   "85 scenarios of 2-3 real goroutines (concurrent first use of recursive, mutually recursive, pointer-/map-recursive and nested types; shared intern tables; pooled map-key scratch with the pool's reuse-vs-fresh answer as an explored environment choice; failing builds) run on a fresh Plenc per execution. Every schedule within the completed deviation bound is executed (small scenarios: all interleavings; others: every schedule with <=3 preemptions, 3 threads <=2 quick / 3 thorough) and each operation's result is compared with the same operation alone on a fresh instance, plus a post-quiescence probe of the instance. Failing schedules are replayed twice and must reproduce identically.",
+ "C07": ("E3-sched(+E5 race)", "stateless model checking of the real code: controlled cooperative scheduler owning every sync/atomic operation, depth-first enumeration of interleavings with iterative preemption bounding followed by a sleep-set (partial-order reduced) enumeration of all interleavings, sequential-specification oracle",
+   "85 scenarios of 2-3 real goroutines (concurrent first use of recursive, mutually recursive, pointer-/map-recursive and nested types; shared intern tables; pooled map-key scratch with the pool's reuse-vs-fresh answer as an explored environment choice; failing builds) run on a fresh Plenc per execution. Every schedule with <=3 preemptions is executed (3 threads: <=2 quick / 3 thorough), then every interleaving up to commutation of independent operations (sleep sets over per-object / per-key / read-write operation signatures) - completed for all 80 two-thread scenarios in the quick tier, under an execution cap for three threads (the evidence names the bound completed per scenario) - and each operation's result is compared with the same operation alone on a fresh instance, plus a post-quiescence probe of the instance. Failing schedules are replayed twice and must reproduce identically.",
    "Trusted: the scheduler (sequentially consistent, switches only at sync / sync/atomic operations, instrumented via a generated import overlay of the current sources); unsynchronised accesses are looked for by the separate free-running -race pass, which is complementary and not exhaustive. Registration concurrent with use is not claimed.", "§7 C07"),
  "C10": ("E2-bfs(+E3 env)", "explicit-state exploration of call histories on one real instance and one target variable, with sync.Pool's answer enumerated as an environment choice by the scheduler shim; reference merge model as oracle",
-   "For 28 re-use-sensitive types (x2 configurations): every history (prior target value p0; 2 or 3 Marshal+Unmarshal-into-the-same-target calls, each followed by an Unmarshal into a fresh variable) over the boundary values, priors also with aliased pointers, every sync.Pool reuse|fresh answer sequence. After every call the target must be one of ref.Merge(prior, v) and the fresh decode must equal a virgin instance's decode (differential), and Marshal inside the history must still produce the reference bytes.",
+   "For 28 re-use-sensitive types (x2 configurations): every history (prior target value p0; 2 or 3 Marshal+Unmarshal-into-the-same-target calls, each followed by an Unmarshal into a fresh variable) over the boundary values, priors as built, with aliased pointers and with slices truncated so that stale elements sit in the spare capacity, every sync.Pool reuse|fresh answer sequence. After every call the target must be one of ref.Merge(prior, v) and the fresh decode must equal a virgin instance's decode (differential), and Marshal inside the history must still produce the reference bytes.",
    "Trusted: ref.Merge (weakest reading where the statement is silent), the Pool shim (LIFO reuse or New). Depth 3 in the quick tier uses the reduced value set.", "§7 C10"),
  "C19": ("E2-bfs+E3-sched(+E5 race)", "explicit-state BFS over decode histories keyed on the real intern tables' contents, plus scheduler-controlled interleaving enumeration of concurrent decoders sharing the tables",
-   "BFS: every history of <=4 (thorough 6) decode operations over the string alphabet (new, repeated, empty, shared prefix, binary, 128-byte; string and null.String fields; two independent tables per type), states de-duplicated on the tables' contents read reflectively from the real codec; in every state the interned result equals the plain twin's, all strings returned so far are unchanged after the caller's buffer is overwritten, no table entry or result lies inside a caller buffer (address ranges), earlier table snapshots are untouched (copy-on-write) and the encoding equals the plain one. Schedules: 12 scenarios of 2-3 goroutines through shared tables, all schedules within the completed preemption bound, sequential-specification oracle.",
+   "BFS: every history of <=4 (thorough 6) decode operations over the string alphabet (new, repeated, empty, shared prefix, binary, 128-byte; string and null.String fields; two independent tables per type; each step decoded into a fresh variable and into a long-lived re-used destination), states de-duplicated on the tables' contents read reflectively from the real codec; in every state the interned result equals the plain twin's, all strings returned so far are unchanged after the caller's buffer is overwritten, no table entry or result lies inside a caller buffer (address ranges), earlier table snapshots are untouched (copy-on-write) and the encoding equals the plain one. Schedules: 12 scenarios of 2-3 goroutines through shared tables, all schedules within the completed preemption bound, sequential-specification oracle.",
    "Trusted: the reflective table locator (layout change => machinery error), the scheduler as for C07. The -race pass is complementary.", "§7 C19"),
  "C04": ("E4-dev", "exhaustive enumeration of hostile decoder inputs: all short byte strings, all single deviations (truncation, byte substitution, token replacement/insertion) from every valid corpus encoding, all short token strings; each decoded by the real Unmarshal / Codec.Read / Descriptor.Read under three memory presentations",
    "26 targets (an every-encoding struct in default and proto configuration, each container type at top level, recursive hand-written types, the JSON-any codecs). Every byte string of length <=2 (thorough: +third byte from the boundary alphabet), every truncation / alphabet substitution / boundary-varint token replacement or insertion of every corpus encoding (thorough: two deviations on short encodings), every token string of <=3 (4) tokens. Oracles per input: no panic or fatal error (worker death is attributed to the input), termination (watchdog), identical result for capacity==length and two differently filled spare capacities (no read outside the input), allocation bound confirmed with an exact measurement, Read's n within [0,len].",
@@ -38,19 +38,19 @@ CHECKS = {
    "Every history of <=3 (thorough 4) Marshal calls over 20 types chosen to hit every interface representation (pointer-shaped structs, maps, pointers, scalars, slices, ordinary structs), 7 buffer kinds (nil, empty, spare capacity, exact-capacity prefix, patterned spare prefix, previous result, previous result[:0]), by value and by pointer, values always including ones that encode to nothing. Each call: nil error, buffer prefix preserved byte for byte, appended bytes match the reference encoding tree.",
    "Trusted: ref.EncTop. From the third call on only the buffer-re-using kinds are varied.", "§7 C06"),
  "C09": ("E1-enum", "bounded exhaustive enumeration of presence-carrying positions x pointee types x presence states, reference expectation and Descriptor flag model as oracle",
-   "Every pointee type (all leaves, structs, slices) in every presence position (pointer field, null.X field, pointer/null map value under zero and non-zero keys, **X, pointers inside pointed-to structs, map[K]*struct, slice of structs with pointer and null fields) between two siblings, values {absent, present zero, present non-zero, present-but-encodes-to-nothing}: presence and pointee after the round trip equal the reference; all-absent values encode to zero bytes; ExplicitPresence is set for exactly the pointer / null typed struct fields and map keys/values.",
+   "Every pointee type (all leaves, structs, slices) in every presence position (pointer field, null.X field, pointer/null map value under zero and non-zero keys, **X, pointers inside pointed-to structs, map[K]*struct, slice of structs with pointer and null fields, and the intern-tagged string / null.String forms of each) between two siblings, values {absent, present zero, present non-zero, present-but-encodes-to-nothing}: presence and pointee after the round trip equal the reference; all-absent values encode to zero bytes; ExplicitPresence is set for exactly the pointer / null typed struct fields and map keys/values.",
    "Trusted: ref.Expect. Slice-element descriptor flags are not judged.", "§7 C09"),
  "C11": ("E1-enum", "bounded exhaustive enumeration with address-range (aliasing) analysis of the live values and buffers",
-   "Same universe as C01: after Marshal the value and buffer prefix are unchanged and the output shares no memory with anything reachable from the value; after Unmarshal from a buffer with spare capacity the input is unchanged, no string / slice backing array / pointee reachable from the decoded value intersects input[0:cap], and after the input is overwritten and re-used for another Marshal the decoded value (and a second decode through the same instance) is unchanged.",
+   "Same universe as C01, Marshal into nil / empty / one-byte-short / roomy destinations: after Marshal the value and buffer prefix are unchanged and the output shares no memory with anything reachable from the value; after Unmarshal from a buffer with spare capacity the input is unchanged, no string / slice backing array / pointee reachable from the decoded value intersects input[0:cap], and after the input is overwritten and re-used for another Marshal the decoded value (and a second decode through the same instance) is unchanged; an instance-state sequence (decode from A, overwrite A, decode from B, re-check everything decoded so far) covers state kept inside codecs.",
    "Trusted: reflect/unsafe address arithmetic in the harness. Map bucket memory is inspected through its keys and values.", "§7 C11"),
  "C12": ("E1-enum", "bounded exhaustive enumeration over the four configurations with an independent schema-directed protobuf framing reader and the reference encoder",
    "Every struct type of the universe with every map field tagged proto, all four configurations, boundary values: only wire types 0,1,2,5 and exact lengths under both switches; bytes match the reference encoding of each configuration; flipping a switch leaves types it does not concern byte-identical; round trip per configuration; a default-mode instance decodes the repeated-field form (arrays-only configuration, and both switches for time-free types) to the same value.",
    "Trusted: ref.Walk / ref.WireTypes (no protobuf library). Types with nested presence (**T, *null.X) are left to C01/C09.", "§7 C12"),
  "C03": ("E1-enum", "bounded exhaustive enumeration of schema pairs (S, S') x values on the real decoder with the reference merge model as oracle",
-   "S = every tuple of <=3 (thorough 4) fields over 12 skip-relevant encodings + sentinel; S' = every removal subset x every permutation with fresh names x optional added field; values = full product of {zero, nz1, nz2}; top level, nested as a field and as slice elements; targets pre-populated with sentinels. No error, shared indexes as decoding into S, absent/added fields keep their prior value, the field after skipped data is intact.",
+   "S = every tuple of <=3 (thorough 4) fields over 12 skip-relevant encodings + sentinel; S' = every removal subset x every permutation with fresh names x optional added field; values = full product of {zero, nz1, nz2}, each also with the trailing sentinel omitted so that a removed field can end its message; top level, nested as a field and as slice elements; targets pre-populated with sentinels. No error, shared indexes as decoding into S, absent/added fields keep their prior value, the field after skipped data is intact.",
    "Trusted: ref.Merge. Field kinds are one representative per wire class.", "§7 C03"),
  "C08": ("E1-enum", "bounded exhaustive enumeration of type definitions (kinds x nesting positions x tag strings x duplicate arrangements) against the reference acceptance model, with a behavioural battery and a registry-poisoning probe",
-   "Every supported representative and every unsupported kind in 19 nesting positions x 4 configurations, the full 24-tag x 15-kind matrix, duplicate-index arrangements, skipped/unexported/blank fields, failing recursive definitions in every probe order: no panic; documented-invalid => non-empty error; accepted => round-trip and Size/Append battery on zero and non-zero values; after any rejection every independently valid sub-type still works on the same instance and no rejected sub-type is left usable; unexported and '-' fields are neither encoded nor written.",
+   "Every supported representative and every unsupported kind in 19 nesting positions x 4 configurations, the full 24-tag x 15-kind matrix, every nesting shape x every tag option, duplicate-index arrangements, skipped/unexported/blank fields, failing recursive definitions in every probe order: no panic; documented-invalid => non-empty error; accepted => round-trip and Size/Append battery on zero and non-zero values; after any rejection every independently valid sub-type still works on the same instance and no rejected sub-type is left usable; unexported and '-' fields are neither encoded nor written.",
    "Trusted: ref.Accept. Indexes above 65536 are outside the alphabet (dense fieldsByIndex).", "§7 C08"),
  "C14": ("E1-enum", "bounded exhaustive enumeration of type definitions compared attribute by attribute with an independent descriptor model",
    "Every type-in-position of the universe x configurations, every field of every field-position struct under each of the five json tag forms, all tag options, null and hand-written named types: the real Codec.Descriptor() equals ref.Descriptor on Index, Name, Type, struct TypeName, ExplicitPresence, LogicalType, element order and count, recursively. The recursive family runs in crash-attributed cases (Descriptor() must return).",
@@ -62,7 +62,7 @@ CHECKS = {
    "Every depth-1 array / string-keyed map of width <=2 (thorough 3) over 20 leaves (nil, bools, boundary ints, floats, strings, json.Number, empty and nil containers) and keys {\"\", a, b}; depth-2 containers over a reduced element set plus every depth-1 container; depth-3 wrappers; each as top-level map, top-level array, struct field with a sibling, and as an unknown field skipped by a struct lacking it: round trip equal modulo nil/empty containers, sibling intact, and Descriptor + JSON outputter over the same bytes equal to encoding/json's rendering.",
    "Trusted: encoding/json. Only the dynamic types the statement lists.", "§7 C16"),
  "C17": ("E2-bfs", "explicit-state BFS over configuration histories (instances, registrations, early uses) with a registration-map model predicting every probe's bytes",
-   "BFS to depth 5 (thorough 6) over operations {create instance with default / both switches, RegisterCodec / RegisterCodecWithTag(flat|custom) of three marker codecs on any instance, Use(instance)}, states de-duplicated on the model's registration sets with the frontier exhausted; in every state every instance, the package default and the package-level functions run 11 probes placing the named type as value, field, *T, []T, map key, map value and under tags: bytes must equal the prediction for that instance alone. Registrations on the package default use a distinct named type per scenario.",
+   "BFS to depth 5 (thorough 6) over operations {create instance with default / both switches, RegisterCodec / RegisterCodecWithTag(flat|custom) of three marker codecs for the named type and for its underlying basic type on any instance, Use(instance)}, states de-duplicated on the model's registration sets with the frontier exhausted; in every state every instance, the package default and the package-level functions run 11 probes placing the named type as value, field, *T, []T, map key, map value and under tags, in declared and in reverse order on two realisations of the state: bytes must equal the prediction for that instance alone. Registrations on the package default use a distinct named type per scenario.",
    "Trusted: the registration-map model. Registration precedes first use on the same instance (documented API order).", "§7 C17"),
  "C20": ("E1-enum", "bounded exhaustive enumeration of generated Go source files x flag combinations run through the real plenctag binary, with go/parser, go/format, go/types and plenc itself as oracles",
    "Files from a grammar (1-2 fields, thorough 3; six field shapes x three types x ten existing-tag states; package-level, generic, function-local and expression struct types) x the 16 flag combinations, 47k runs quick: no crash; on error the file is untouched; otherwise AST-with-tags-erased unchanged, prior tags kept, new indexes above every prior one and distinct per name, exclusions dashed, unexported fields untouched by default, gofmt-stable, type-checks, plenc builds a codec for every tagged struct, second run is a fixed point.",
